@@ -17,7 +17,11 @@ PROP = dict(
          "array<(bool,void)> up to 3, array<array<bool>>, (array<bool>,bool) (thorough: arrays one element longer); "
          "SAMPLED: all pairs of 13 boundary ints, 14 float bit patterns (±0, ±min subnormal, ±1, ±MAX, ±inf, NaN, ...) and "
          "14 strings (empty, prefixes, NUL, multi-byte, 7F/80 boundary), and seeded pairs (a quarter equal, half one "
-         "mutation apart) of 12 compound types over them; one program per pair, compiled and run by the real compiler+VM, "
+         "mutation apart) of 12 compound types over them; the scalar pairs (bool, ints, floats, strings) additionally in "
+         "every operand SHAPE the compiler distinguishes: variable/literal (all pairs; the literal becomes the immediate of "
+         "an *Imm instruction), literal/variable and literal/literal (seeded half in quick, all in thorough), with the "
+         "laws evaluated per shape, and as a literal MATCH PATTERN (`match a { <lit b> -> .. }` matches exactly when a == b; "
+         "non-negative literals only, the grammar has no negative patterns); one program per pair, compiled and run by the real compiler+VM, "
          "prints == != < <= > >= and Hash.hash of both; compared with the Lean hand model, with a lexicographic Rust "
          "oracle, and the laws (reflexive/symmetric/transitive ==, != negation, trichotomy, <= iff not >, >= iff flipped <=, "
          "transitive <, equal => equal hash) are evaluated on the implementation's answers over all pairs and triples; "
